@@ -123,8 +123,13 @@ PROP = {
             "startDbId drawn in half of the streams), the bisync parser parseAofReplayUnits (standalone mode) on streams of table-resolved commands with "
             "balanced and stray MULTI/EXEC, and the two snapshot worker loops rdbReplay / rdbReplayBisync fed by the real rdb.Loader from generated "
             "string-key snapshots against the target double (outcome = key present in the target); config.(*SyncConfig).fix on standalone/cluster x "
-            "TargetDb x resume x filter (C10cfg). Every outcome is compared with the Lean model line by line and with an independent Go oracle (linear union "
-            "of ranges, bytes.HasPrefix, bitwise CRC16, rule predicates per command). distinct_nontrivial = distinct (config, key) with >1 rule of a kind, "
+            "TargetDb x resume x filter, struct-built and through the YAML loader InitSyncerConfig (printable configurations), plus the flag setters SliceInt / "
+            "DoubleSliceUint16.Set (C10cfg). Also drawn: the kind of target (standalone / cluster) of the output, SyncDelayTestKey = a generated (often rejected) key with probe "
+            "SETs in the stream, ReplaceHashTag; the bisync parser in standalone and cluster slot mode; DEL/UNLINK/MSET/MSETNX/SINTERSTORE with 63-257 keys and rejected keys "
+            "around positions 0, 63, 64 and the end; keys of the bisync control namespace and near misses. Every outcome is compared with the Lean model line by line and with an independent Go oracle (linear union "
+            "of ranges, bytes.HasPrefix, bitwise CRC16, rule predicates per command, bookkeeping namespaces as documented in docs/bisync.md 4.1 - not read from the wiring). For the parser "
+            "loops the MONITOR judges only the filter decision (which data commands with which arguments reach the sender / the units); offsets, SELECT "
+            "elision, PING and transaction brackets are tied by the model diff only (they belong to C01/C02/C09). distinct_nontrivial = distinct (config, key) with >1 rule of a kind, "
             "(config, command) whose outcome is reject/projection, non-empty parser outputs, snapshot entries, preserved db lists",
     "trusted": [
         "Redis Cluster HASH_SLOT as transcribed in Model/Slot.lean (proved equal to the model of redis.KeyToSlot in C11)",
@@ -137,10 +142,17 @@ PROP = {
         "Sender.parseStep instantiated with the concrete filter (pcfgOf) and the bisync parser is the C13 model Bisync.parse, both tied here under generated filter configurations; "
         "the two keyspec tables, the partial-projection list, NoRouteCmds and the reserved prefixes are regenerated from source on every run",
         "every statement of package syncer that consults the filter (file, function, printed condition and guards), the Insert* wiring of NewRedisOutput with its guards, the two "
-        "places the configured filter is handed to NewRedisOutput and the absence of any write to the filter section in config/config.go are compared with expected lists",
+        "places the configured filter is handed to NewRedisOutput and the absence of any assignment through a filter-configuration field anywhere in the repository, and the definitions of the identifiers passed to Insert* are compared with expected lists",
         "boundary of the rule: a command whose key positions the regenerated table does not resolve passes with all its arguments (EVAL/FCALL with numkeys 0, SORT without STORE, "
         "module commands absent from the table, source keys of CMS.MERGE/TDIGEST.MERGE); the property's quantifier is the table's command set, its agreement with the Redis "
         "command reference is checked on 43 golden commands only (no vendored command list is available offline)",
+        "bookkeeping keys = the three namespaces the project documents (redis-gunyu-checkpoint*, /redis-gunyu*, redis-gunyu-bisync:*). A bisync link's incremental parser "
+        "handles the bisync namespace itself (isBisyncControlCommand: first argument, or any argument of DEL/UNLINK - e.g. RENAME a redis-gunyu-bisync:x passes; C13's subject), "
+        "its outFilter deliberately does not list it (the parser must see marker commands)",
+        "MSET with a dangling last key (odd argument count; no source propagates it): the property does not define its projection; outFilter-then-namespace-filter withholds it where a "
+        "single union filter would project - monitor skipped, model diff only",
+        "a bisync parser that FAILS (E) where the rules would forward is seen by the model diff only (the monitor checks that nothing outside the rules is emitted)",
+        "configuration as parsed: YAML loader and flag setters are run for printable configurations; the -cmd=rdb flag registration itself (config/flags.go) is not",
         "SELECT is never subject to the command blacklist (branch order of the parser); PUBLISH always carries a channel (parseAofCommand indexes argv[0] without a length check)",
         "a run resumes (startDbId) where the source database is not listed: bypass starts false (C02's invariant keeps the resume position out of bypassed regions; a blacklist "
         "edited between runs takes effect at the next SELECT)",
@@ -154,9 +166,11 @@ MANIFEST = {
             "union of the valid ranges; slot rule = black or (white configured and not white) on HASH_SLOT of the key (via C11); the byte-indexed trie matches exactly "
             "when a non-empty configured prefix is a byte prefix; whatever FilterCmdKey forwards of a table-resolved command has all its key positions accepted, the "
             "forwarded keys are exactly the accepted keys in order (DEL/UNLINK: the key list; MSET: each with its own value), otherwise it is withheld; no key position "
-            "of a forwarded command and no replayed snapshot key carries a reserved prefix, under every configuration; snapshot entries are replayed iff db, prefix and slot "
+            "of a command a plain link forwards and no snapshot key either loop replays lies in one of the three documented bookkeeping namespaces (every key constructor of "
+            "pkg/redis/checkpoint/bisync.go is proved to build a key of the namespace), under every configuration; snapshot entries are replayed iff db, prefix and slot "
             "rules accept; over any command stream nothing of a listed database is handed to the sender between its SELECT and the next one except transaction "
-            "brackets (MULTI/EXEC, absorbed by the sender, carrying the offset handed over before the region); command blacklist is case-folded membership; config fix preserves the filter. Model tied to pkg/filter, "
+            "brackets (MULTI/EXEC, absorbed by the sender, carrying the offset handed over before the region), and after a SELECT of an unlisted database an ordinary "
+            "command is handed over exactly when name and key rules accept it; command blacklist is case-folded membership. The configuration layer (SyncConfig.fix, YAML, flags) is tied by correspondence only. Model tied to pkg/filter, "
             "pkg/redis/keyspec, NewRedisOutput, parseAofCommand, parseAofReplayUnits, rdbReplay, rdbReplayBisync and SyncConfig.fix by differential correspondence plus an "
             "independent Go oracle.",
     "note": "trusted: Lean kernel (propext, Classical.choice, Quot.sound only), HASH_SLOT transcription, extractor, harness and doubles; ASCII command words; tables regenerated, logic by correspondence; "
